@@ -58,6 +58,20 @@ CLAIMED = {
         note="Trusted: TLC, the ring embedding X->Y^t (commutes with every modelled operation), small operands so that FFT64 results "
              "are exact. Program space sampled (seeded by VERIF_SEED).",
         technique="TLA+ API state machine simulated by TLC; generated behaviours replayed step by step on the real library"),
+    "C02": dict(
+        category="model_checking",
+        text="TLC enumerates Vmp.tla - the prepared-matrix address map (column pairs, lone odd column, N<8 layout) and the apply "
+             "loops (block extract, 2-column kernel with the code's unsigned loop bound, odd-last 1- or 2-column kernel, N<8 "
+             "mul/addmul path, final zero fill), one kernel call per step - for every nrows,ncols in 1..4, a_size,res_size in 0..5, "
+             "N in {2,4,8,16}: the set of (row x matrix group) products accumulated per output column and block equals the "
+             "definition, no address outside the prepared matrix, scratch within *_tmp_bytes, termination, layout injective and "
+             "exactly filling bytes_of_vmp_pmat. All 576 shapes with concrete matrices (expected product computed by TLC) are "
+             "replayed on the real library lifted to N=2..65536, both entry points (from integers / from DFT), AVX and generic "
+             "dispatch, exact-size scratch; dense random shapes up to 8x8 are recorded and re-computed by TLC.",
+        design_ref="DESIGN.md section 4 C02",
+        note="Trusted: TLC; results projected through the library's own vec_znx_idft; small operands (exact FFT64 regime). Shapes "
+             "outside the box only sampled.",
+        technique="TLA+ index-level model of the VMP layout and loops checked exhaustively with TLC + replay of every shape + TLC trace validation"),
 }
 
 NOT_YET = "check not built yet in this session (planned, see DESIGN.md section 8)"
